@@ -1,5 +1,74 @@
-Require Import V.Lib.Base V.Lib.Calls V.C06.Model.
+(* C06 - ground-text rendering is faithful and complete.
+   The theorems are stated for THEORY-FREE steps whose names / #show terms are identifiers ([a-z_][A-Za-z0-9_]*, not "not")
+   and are therefore named ..._partial: theory atoms (visitTheories, TheoryAtomStringBuilder) are part of the model
+   (C06/Model.v), of the correspondence check and of the python oracle, but not of the reference parser / these proofs.
+   Model: C06/Model.v (AspifTextOutput as repaired), reference parser: C06/RefParse.v, specification: C06/Spec.v. *)
+Require Import V.Lib.Base V.Lib.Calls V.C06.Model V.C06.RefParse V.C06.Spec V.C06.ProofsStep.
 Local Open Scope Z_scope.
+
+(* Parse-back: for every state reached by a theory-free program (good names, empty buffer) and every list cs of valid
+   directive calls, rendering the step beginStep; cs; endStep succeeds (status 0), appends a text txt to the stream, and
+   the reference parser reads txt back as exactly one statement per rule / minimize / project / external / assume /
+   heuristic / edge directive and one #show per output directive that did not become the name of its atom, in order;
+   atoms are spelled by the final name table; heads, head kinds, priorities, values, modifiers and conditions are equal;
+   a normal body is equal, an aggregate body has the same literals and the same satisfaction condition under every
+   interpretation X (an equal-weight sum may come back as the count with the bound ceil(bound/w)).  Nothing else is
+   emitted.  The invariants hold again afterwards, so the statement applies to every step of a program. *)
+Theorem c06_parse_back_partial : forall s cs,
+  Forall call_ok cs -> names_ok (names s) -> dirs s = [] -> tatoms s = [] ->
+  exists s' txt ss,
+    run_calls s (CBegin :: cs ++ [CEnd]) = (0, s') /\ out s' = out s ++ txt /\
+    names s' = snd (expected (names s) cs) /\
+    ref_parse txt = Some (map (map_stmt (name_of (names s'))) ss) /\
+    Forall2 stmt_equiv (fst (expected (names s) cs)) ss /\
+    names_ok (names s') /\ dirs s' = [] /\ tatoms s' = [].
+Proof. exact step_parse. Qed.
+Print Assumptions c06_parse_back_partial.
+
+(* Names: every output directive of the step is represented - as the name of its atom in the name table the step is
+   printed with (names s' above = snd (expected ..)), or as a #show statement with the same term and condition. *)
+Theorem c06_names_partial : forall cs nm n c, In (COutput n c) cs ->
+  (exists a, c = [a] /\ 0 < a /\ lookup a (snd (expected nm cs)) = Some n) \/
+  In (SShow n (map lit_of c)) (fst (expected nm cs)).
+Proof. intros. now apply outputs_represented. Qed.
+Print Assumptions c06_names_partial.
+
+(* Totality: rendering a whole theory-free program (initProgram, then any number of steps of valid directive calls,
+   including every degenerate one: empty heads, bodies, aggregates, lists, weights 0, bounds <= 0 or > sum or INT_MAX)
+   never raises (status 1), never divides by zero and never leaves the range of int (status 9). *)
+Theorem c06_total_partial : forall inc steps, Forall (Forall call_ok) steps ->
+  fst (run_calls init_st (program_calls inc steps)) = 0.
+Proof. exact program_total. Qed.
+Print Assumptions c06_total_partial.
+
+(* The arithmetic behind sum -> count: for weights w >= 1 and k literals true, (bound + w - 1) quot w <= k  iff  bound <= w * k
+   (C++ division truncates towards zero: Z.quot), for every bound incl. bound <= 0; and the result fits int. *)
+Theorem c06_count_bound : forall b w k, 1 <= w -> 0 <= k -> (count_bound b w <=? k) = (b <=? w * k).
+Proof. exact count_bound_iff. Qed.
+Print Assumptions c06_count_bound.
+Theorem c06_count_bound_range : forall b w, in_int b = true -> 1 <= w -> in_int (count_bound b w) = true.
+Proof. exact count_bound_range. Qed.
+Print Assumptions c06_count_bound_range.
+
+(* ---- non-vacuity: a degenerate-heavy step satisfies the hypotheses, and what it renders to / parses back as ---- *)
+Definition ex_step : list call :=
+  [CRule 1 [] [1; -2]; CRule 0 [] []; CRule 1 [] []; CWRule 0 [1] 1 []; CWRule 0 [1] 1 [(2, 0); (3, 0)];
+   CWRule 0 [1; 2] 2147483647 [(2, 2); (-3, 2)]; CWRule 1 [4] (-3) [(2, 5); (3, 5)]; CMin 3 []; CProject []; CAssume [];
+   COutput [97] [1]; COutput [98] [1]; COutput [99] [-2]; CExternal 3 0; CHeuristic 1 5 (-2) 0 []; CEdge 0 1 [1; -3]].
+Example ex_step_ok : Forall call_ok ex_step.
+Proof. repeat constructor; try (cbn; lia); try discriminate. Qed.
+Example ex_step_parse :
+  let s' := snd (run_calls init_st (CBegin :: ex_step ++ [CEnd])) in
+  ref_parse (out s') =
+  Some [SRule true [] (BNormal [(false, [97]); (true, [120; 95; 50])]);
+        SRule false [] (BNormal []); SRule true [] (BNormal []);
+        SRule false [[97]] (BAgg 1 []);
+        SRule false [[97]] (BAgg 1 [((false, [120; 95; 50]), 0); ((false, [120; 95; 51]), 0)]);
+        SRule false [[97]; [120; 95; 50]] (BAgg 1073741824 [((false, [120; 95; 50]), 1); ((true, [120; 95; 51]), 1)]);
+        SRule true [[120; 95; 52]] (BAgg 0 [((false, [120; 95; 50]), 1); ((false, [120; 95; 51]), 1)]);
+        SMin 3 []; SProject []; SAssume [];
+        SShow [98] [(false, [97])]; SShow [99] [(true, [120; 95; 50])];
+        SExternal [120; 95; 51] 0; SHeu [97] [] (-2) 0 5; SEdge 0 1 [(false, [97]); (true, [120; 95; 51])]].
+Proof. vm_compute. reflexivity. Qed.
 Example c06_smoke : run_case [1;0;2;4;0;1;1;0;3] = [0; 5; 120; 95; 49; 46; 10].
 Proof. vm_compute. reflexivity. Qed.
-Print Assumptions c06_smoke.
